@@ -215,7 +215,7 @@ def _one(args):
     d, timeout = args
     for f in ("WritePath.tla", "WritePathTrace.tla"):
         shutil.copyfile(os.path.join(SPECS, f), os.path.join(d, f))
-    cmd = ["java", "-XX:+UseParallelGC", "-Xmx1g", "-Dtlc2.tool.queue.IStateQueue=StateDeque", "-cp", TLC_JAR, "tlc2.TLC",
+    cmd = ["java", "-XX:+UseParallelGC", "-Xmx1g", "-Djava.io.tmpdir=" + d, "-Dtlc2.tool.queue.IStateQueue=StateDeque", "-cp", TLC_JAR, "tlc2.TLC",
            "-metadir", os.path.join(d, "m"), "-workers", "1", "-config", "MCT.cfg", "MCT.tla"]
     try:
         r = subprocess.run(cmd, cwd=d, capture_output=True, text=True, timeout=timeout)
